@@ -1,3 +1,3 @@
 #!/bin/sh
 # replays this counterexample against the real build
-cd /tmp/dbg_C14b && VERIF_SCRIPT=/verif/replays/C14/VHarnessTokenRoundTrip3_d588ea75_0/script.json VERIF_RAW_SALT=0 GOFLAGS=-mod=mod GOPROXY=off go test -vet=off -count=1 -overlay /verif/replays/C14/VHarnessTokenRoundTrip3_d588ea75_0/overlay.json -run ^TestVerifReplay_VHarnessTokenRoundTrip3$ -v ./cashu
+cd /tmp/seedrepo_C14b && VERIF_SCRIPT=/verif/replays/C14/VHarnessTokenRoundTrip3_d588ea75_0/script.json VERIF_RAW_SALT=0 GOFLAGS=-mod=mod GOPROXY=off go test -vet=off -count=1 -overlay /verif/replays/C14/VHarnessTokenRoundTrip3_d588ea75_0/overlay.json -run ^TestVerifReplay_VHarnessTokenRoundTrip3$ -v ./cashu
